@@ -17,6 +17,7 @@ type pb struct {
 	nP        int
 	theme     map[int][]string // per-plan value pools per setter (nil = plan is not themed)
 	parseInto bool             // also parse through Parser.BasicParser(input, nil, NewUrl(), NoState)
+	reenter   bool             // Iterate callbacks may read from the list being iterated and from its URL (C02)
 }
 
 func newPB(r *RNG) *pb {
@@ -225,7 +226,11 @@ func (b *pb) spMut(s int, iter bool) {
 	case 4:
 		b.add(Op{K: "sp.sortabs", P: p, H: s, F: f})
 	case 5:
-		b.add(Op{K: "sp.iter", P: p, H: s, W: b.r.Intn(3), A: QS(b.g.Name()), B: QS(b.g.Value()), F: f})
+		w := b.r.Intn(3)
+		if b.reenter && b.r.Chance(1, 2) {
+			w = 3 + b.r.Intn(6) // the callback reads from the same list or from its URL
+		}
+		b.add(Op{K: "sp.iter", P: p, H: s, W: w, A: QS(b.g.Name()), B: QS(b.g.Value()), F: f})
 	}
 }
 
@@ -344,6 +349,7 @@ func genWorldPlan(prop string, master uint64, run int) Plan {
 	pl := Plan{Prop: prop, Seed: master, Run: run}
 	n := histLen(r)
 	b.parseInto = prop == "C04" || prop == "C02" || prop == "C19" || prop == "C03"
+	b.reenter = prop == "C02"
 	if r.Chance(1, 2) {
 		b.theme = map[int][]string{}
 		b.g.themeNames = true
